@@ -41,9 +41,10 @@ def gen_cases(ctx):
     while True:
         mode = rng.choice(["minres", "minres", "minres", "ciq", "sqrt_inv_matmul"])
         dtype = rng.choice(["f64", "f64", "f32"]) if mode == "minres" else "f64"
-        n = rng.choice(sizes) if mode == "minres" else rng.choice([2, 3, 5, 8, 12, 20])
+        n = rng.choice(sizes) if mode == "minres" else rng.choice([2, 3, 5, 8, 12, 20] + ([1] if mode == "sqrt_inv_matmul" else []))
         kappa = rng.choice([1.0, 10.0, 1e2, 1e3] + ([1e4] if dtype == "f64" and mode == "minres" else []))
-        yield dict(mode=mode, n=n, batch=rng.choice([[], [], [2], [2, 2]]), dtype=dtype, kappa=kappa, family=rng.choice(["uniform", "clustered", "geometric"]),
+        # (sqrt_inv_matmul: also singleton batches, 1 x 1 operators, one-row left factors and 1-D right-hand sides - result shapes)
+        yield dict(mode=mode, lhs_rows=rng.choice([1, 3]), n=n, batch=rng.choice([[], [], [2], [2, 2]] + ([[1], [1, 2]] if mode == "sqrt_inv_matmul" else [])), dtype=dtype, kappa=kappa, family=rng.choice(["uniform", "clustered", "geometric"]),
                    cols=rng.choice([1, 2, 4]), vec=rng.random() < 0.15, zero_col=rng.random() < 0.2, shifts=rng.choice(["none", "scalar", "vector", "batched"]),
                    precond=rng.choice([None, None, "jacobi", "exact"]), tol=rng.choice([1e-4, 1e-8, 1e-14]), max_iter=rng.choice([None, None, "n", "half"]),
                    nq=rng.choice([7, 15, 25]), inverse=rng.random() < 0.6, lhs=rng.random() < 0.4, precond_size=rng.choice([None, None, 2]),
@@ -203,7 +204,9 @@ def run_minres(case, ctx):
     # (with a preconditioner P the shifted systems the recurrences solve are (K + s P) x = b - what the contour quadrature needs - so only the
     # unshifted system has a preconditioner-independent meaning and is judged)
     # (exhaustion: without re-orthogonalisation n + 1 steps are only "exact" for well-conditioned systems)
-    if (stopped_by_tol or (kreached >= n + 1 and kapS <= 100)) and (pre is None or sk == "none"):
+    # (exhaustion is judged without a preconditioner only: the recurrences then run on P^-1/2 K P^-1/2, whose conditioning - and with it
+    # the finite-precision delay of the n-step termination - is not that of K)
+    if (stopped_by_tol or (kreached >= n + 1 and kapS <= 100 and pre is None)) and (pre is None or sk == "none"):
         tol_eff = convs[-1]["tolerance"] if stopped_by_tol else 0.0
         rb = 30 * tol_eff * kapS + 1e4 * kapS * eps + (0.0 if stopped_by_tol else 1e-6 * kapS)
         if rb < 5e-2:
@@ -346,7 +349,14 @@ def run_ciq(case, ctx):
                 ctx.fail("ciq_unshifted_solve", "value", err=e0, **kw)
             return
         # sqrt_inv_matmul
-        L = torch.randn(*batch, 3, n, generator=g, dtype=torch.float64).to(dt) if case["lhs"] else None
+        L = torch.randn(*batch, case.get("lhs_rows", 3), n, generator=g, dtype=torch.float64).to(dt) if case["lhs"] else None
+        if case.get("vec") and "lhs_rows" in case and not (batch and L is not None):
+            # (a 1-D right-hand side next to a BATCHED left factor is outside the documented signature: the two are concatenated)
+            # 1-D right-hand side: A^-1/2 r of shape (*batch, n) (and L A^-1/2 r of shape (*batch, rows))
+            R = torch.randn(n, generator=g, dtype=torch.float64).to(dt)
+            R64 = R.to(torch.float64)
+            kw["info"] = info = info | {"rhs:1d"}
+            kb += "|1d"
         entry = random.Random(case["seed"]).choice(["method", "function"])
         f = (lambda r, l=None: op.sqrt_inv_matmul(r, l)) if entry == "method" else (lambda r, l=None: linear_operator.sqrt_inv_matmul(op, r, l))
         out, ex = compare.attempt(lambda: f(R, L))
@@ -356,13 +366,18 @@ def run_ciq(case, ctx):
         Aih = _sym_fun(A64, lambda e: e.rsqrt())
         if L is None:
             want = Aih @ R64
+            if tuple(out.shape) != tuple(want.shape):
+                ctx.fail("sqrt_inv_matmul", "shape", detail=f"got {tuple(out.shape)} want {tuple(want.shape)}", **kw)
+                return
             e = compare.relerr(out, want, scale=1e-300)
             if not e <= tol:
                 ctx.fail("sqrt_inv_matmul", "value", err=e, detail=f"tol {tol:.0e} kappa {kap:.1e}", **kw)
                 return
-            twice, ex = compare.attempt(lambda: f(out))
+            # (a batch of vectors is not a 1-D right-hand side: the second application gets it as a batch of one-column matrices)
+            twice, ex = compare.attempt(lambda: f(out.unsqueeze(-1)).squeeze(-1) if R.dim() == 1 and batch else f(out))
             if ex is None:
-                e2 = compare.relerr(twice, torch.linalg.solve(A64, R64), scale=1e-300)
+                e2 = compare.relerr(twice, torch.linalg.solve(A64, R64 if R.dim() > 1 else R64.unsqueeze(-1).expand(*batch, n, 1)).reshape(twice.shape)
+                                    if R.dim() == 1 else torch.linalg.solve(A64, R64), scale=1e-300)
                 if not e2 <= 3 * tol:
                     ctx.fail("sqrt_inv_matmul_twice_is_inverse", "value", err=e2, **kw)
                     return
@@ -371,7 +386,12 @@ def run_ciq(case, ctx):
             res, iq = out
             L64 = L.to(torch.float64)
             want = L64 @ Aih @ R64
-            e = compare.relerr(res, want, scale=1e-300)
+            if tuple(res.shape) != tuple(want.shape):
+                ctx.fail("sqrt_inv_matmul_lhs", "shape", detail=f"got {tuple(res.shape)} want {tuple(want.shape)}", **kw)
+                return
+            # the quadrature error is relative to ||L|| ||A^-1/2 R|| (an entry l^T A^-1/2 r may be small by cancellation)
+            e = float((res.to(torch.float64) - want).norm()) / (float((L64.norm(dim=(-2, -1)) * (Aih @ R64).norm(dim=(-2, -1) if R64.dim() > 1 else -1)).max()) + 1e-300) \
+                if torch.isfinite(res).all() else float("inf")
             wantq = (L64 @ torch.linalg.inv(A64) * L64).sum(-1)
             eq = compare.relerr(iq, wantq, scale=1e-300) if tuple(iq.shape) == tuple(wantq.shape) else float("inf")
             if not e <= tol:
